@@ -58,6 +58,10 @@ pub fn check_split(s: &str) -> Vec<Finding> {
             Ok(j) => bad.push(("join".into(), format!("join gives {} bytes, input {} bytes; first difference at {:?}", j.len(), s.len(), j.bytes().zip(s.bytes()).position(|(a, b)| a != b)))),
             Err(e) => bad.push(("join-err".into(), format!("join failed: {:?}", e))),
         }
+        // a record's RDATA is at most 65535 bytes: beyond that only the in-memory conversions are demanded
+        if s.len() + pieces.len() > 65535 {
+            return bad;
+        }
         match through_wire(&txt) {
             Ok((ws, bytes)) => {
                 if ws.concat() != s.as_bytes() {
@@ -425,6 +429,30 @@ pub fn run(ctx: &Ctx) {
         });
         ctx.space("split/join: every length 0..=800 with a multi-byte character at the end, in the middle, and all multi-byte", 801 * 3, "complete");
     }
+    {
+        // long texts: around the sizes where the chunk count or the total RDATA size crosses a
+        // power of two or the 16-bit limit, and far beyond (in memory only past 65535 bytes of RDATA)
+        let mut lens: Vec<usize> = Vec::new();
+        for c in [4096usize, 16384, 32768, 64516, 64770, 65024, 65278, 65535, 65536, 65792] {
+            lens.extend(c - 6..=c + 6);
+        }
+        lens.extend([70000usize, 100_000, 131_072, 1 << 20]);
+        par_shards(ctx, &lens, |n, t: &mut Tally| {
+            for s in ["a".repeat(*n), format!("{}é", "a".repeat(*n - 2)), "€".repeat(*n / 3)] {
+                t.evals += 1;
+                t.nontrivial += 1;
+                let mut f = check_split(&s);
+                for x in f.iter_mut() {
+                    // keep the artefact small: the case is fully described by its shape
+                    x.case = json!({"kind": "split-long", "n": n, "shape": if s.starts_with('€') { 2 } else if s.ends_with('é') { 1 } else { 0 }});
+                }
+                if !f.is_empty() {
+                    ctx.violations(f);
+                }
+            }
+        });
+        ctx.space("split/join of long texts: 13 lengths around each of 4096, 16384, 32768, 64516, 64770, 65024, 65278, 65535, 65536, 65792 and 70000, 100000, 131072, 2^20 bytes, three contents (through the wire while the RDATA fits 65535 bytes)", lens.len() as u64 * 3, "complete");
+    }
     ctx.sample(json!({"kind": "split", "s": format!("{}é😀", "a".repeat(253))}));
     // space 2: attribute maps
     let keys = ["k", "K", "kk"];
@@ -642,6 +670,15 @@ pub fn run(ctx: &Ctx) {
 }
 
 pub fn replay(case: &Value) -> Vec<Finding> {
+    if case["kind"].as_str() == Some("split-long") {
+        let n = case["n"].as_u64().unwrap_or(0) as usize;
+        let s = match case["shape"].as_u64().unwrap_or(0) {
+            0 => "a".repeat(n),
+            1 => format!("{}é", "a".repeat(n.saturating_sub(2))),
+            _ => "€".repeat(n / 3),
+        };
+        return check_split(&s);
+    }
     match case["kind"].as_str().unwrap_or("") {
         "split" => check_split(case["s"].as_str().unwrap_or("")),
         "map" => check_map(&attrs_from_json(&case["entries"])),
